@@ -91,7 +91,8 @@ type Base struct {
 	Alias *Base // shares the backing array of this base (bytes.Trim…)
 	// MayAlias: bases whose backing array this one may share (joins, loop generalisation)
 	MayAlias []*Base
-	Elems    []Term // known elements (variadic argument arrays)
+	Elems    []Term  // known elements (variadic argument arrays)
+	Cut      *string // constant cut set of a Trim call
 }
 
 // Slice: slice or string value.
@@ -215,6 +216,8 @@ type Unknown struct {
 	// that set is complete (so errors.Is can be decided)
 	Errs      []string
 	ErrsExact bool
+	// Pooled: obtained from (*sync.Pool).Get: storage shared with whoever gets the object next
+	Pooled bool
 }
 
 func (u *Unknown) TKey() string { return fmt.Sprintf("u%d", u.ID) }
